@@ -83,8 +83,8 @@ Predict(r, p, q, pst) ==
        LET D == {x \in Range(r.ids) \cap p.ids : p.lv[x] = "live"}
        IN  IF D = {} THEN [st |-> p, res |-> "err"] ELSE [st |-> Delete(p, D), res |-> "ok"]
   ELSE IF a = "revive" THEN
-       IF r.id \notin p.ids THEN [st |-> p, res |-> "ok"]
-       ELSE LET v == Revive(p, r.id)
+       IF Range(r.ids) \cap p.ids = {} THEN [st |-> p, res |-> "ok"]
+       ELSE LET v == Revive(p, Range(r.ids))
                 R == {x \in p.ids : p.lv[x] = "recycled" /\ v.st.lv[x] = "live"}
                 \* direct memberships restored from recycled_directmemberof (one modify per group)
                 back(g) == {x \in R : x \in Ids(pst) /\ g \in Rdmo(pst, x)}
